@@ -75,7 +75,7 @@ func RunD1(run *vh.Run) {
 		run.Floor("twin blocks compared", run.Get("twin_blocks_compared"), int64(run.N(20, 600)))
 		run.Floor("predictions compared", run.Get("predictions_compared"), int64(run.N(100, 2500)))
 		run.Floor("gas-dependent predictions", run.Get("predictions_gas_dependent"), int64(run.N(25, 600)))
-		run.Floor("predicted first delegations through funded staking puppets (with logs)", run.Get("predictions_of_staking_delegations_with_logs"), int64(run.N(8, 200)))
+		run.Floor("predicted first delegations through funded staking puppets (with logs)", run.Get("predictions_of_staking_delegations_with_logs"), int64(run.N(8, 150)))
 		run.Floor("estimates delivered", run.Get("estimates_delivered"), int64(run.N(40, 1000)))
 		run.Floor("prediction outcome classes", int64(run.DistinctN("prediction_outcome")), 4)
 	}
